@@ -272,6 +272,21 @@ def run(repo: Repo, rep: Report, tier: str) -> None:
                 if d["reply"] is None and p is not None and d["result"] == 0 and m is unres:
                     rep.fail("reply-mask", fq, f"[{inst}] no reply", "a role proposal on an accepted storage context must be answered", mod=pres, node=m.reply_node)
     rep.floor("role-space points evaluated", n_pts, 45)
+    # one proposed context is negotiated independently of the others - also of another context with the same
+    # abstract syntax: proposed twice (one with a supported transfer syntax, one without) the first must come
+    # out exactly as when it is proposed alone, role reply included, the second with 0x04
+    n_pair = 0
+    for p in wire_props:
+        for s_ in settings:
+            try:
+                alone = ne.acceptor(p, s_)
+                first, second = ne.acceptor_pair(p, s_)
+            except Unsupported as exc:
+                rep.defer(f"presentation.negotiate_as_acceptor: pair scenario not evaluable: {exc}")
+                continue
+            n_pair += 1
+            rep.check(first == alone and second == 4, "one-result", "presentation.negotiate_as_acceptor", f"[proposal={p}, supported roles={s_}] proposed twice -> {first}, second context result {second}", f"the same abstract syntax proposed in two contexts (one acceptable, one without a common transfer syntax): the acceptable one must be answered exactly as when proposed alone ({alone}) and the other with 0x04 - otherwise what one context gets depends on its siblings (e.g. the role reply is dropped, and the requestor falls back to default roles while the acceptor keeps the negotiated ones)", mod=pres, node=fa)
+    rep.floor("pair scenarios evaluated", n_pair, 45)
     # the other two outcomes of one proposed context: no common transfer syntax (0x04), abstract syntax not supported (0x03)
     for kw, want_res in ((dict(ts_match=False), 4), (dict(supported=False), 3)):
         for p in (None, (True, True)):
